@@ -243,9 +243,7 @@ class Gen:
         else:
             name = sc.fresh()
         e = self.expr(sc, kind, depth)
-        # known gap F25: `x = <expr reading x through a non-arithmetic root>` -- keep the target out of the rhs
-        if name in ids_read(e):
-            name = sc.fresh()
+        # the target may be read by the expression (x = y and x, x = {v: x}, ...): the old value is read, then assigned
         sc.vars[name] = kind
         return Asg(name, e)
 
@@ -538,3 +536,32 @@ def exhaustive_pairs():
                         except Exception:
                             continue
                         yield Block([t])
+
+
+def reassign_matrix():
+    """`x = S(x)` for a variable that is already assigned, for every shape S of expression that reads x: the old value
+    is read, then the variable is assigned (x = y and x, x = {v: x}, x = 1 < x < 5, x = |q| x, ...)."""
+    X = lambda: Id("x")
+    shapes = [
+        lambda: And(Id("y"), X()), lambda: Or(Id("n"), X()), lambda: And(X(), Id("y")), lambda: Or(X(), Id("y")),
+        lambda: Map(["v"], [X()]), lambda: Map(["a", "b"], [Int(1), X()]), lambda: List([X(), Int(1)]), lambda: List([Int(1), X(), X()]),
+        lambda: Tuple([X(), X()]), lambda: Cmp(["<", "<"], [Int(1), X(), Int(5)]), lambda: Cmp(["<", "<="], [Int(0), Id("y"), X()]),
+        lambda: If([Cmp([">"], [X(), Int(0)])], [Block([Bin("+", X(), Int(10))])], Block([X()])),
+        lambda: If([Id("t")], [Block([And(Id("y"), X())])], Block([Int(0)])),
+        lambda: Range(X(), Bin("+", X(), Int(2))), lambda: IStr(["<", X(), "|", X(), ">"]) if False else Bin("+", X(), X()),
+        lambda: Bin("-", If([Id("t")], [Block([Int(2)])], Block([Int(3)])), X()),
+        lambda: Neg(X()), lambda: Not(And(X(), Id("y"))), lambda: Bin("*", And(Id("y"), X()), Int(2)),
+        lambda: App(Fn([Param("q")], Block([Bin("+", Id("q"), X())])), [X()]),
+        lambda: Match(X(), [Arm([PLit(Int(3))], Block([Tuple([Str("three"), X()])])), Arm([PId("k")], Block([Tuple([Id("k"), X()])]))]),
+        lambda: Switch([Cmp(["=="], [X(), Int(3)]), Bool(True)], [Block([Bin("+", X(), Int(1))]), Block([X()])], Block([Int(0)])),
+    ]
+    values = [lambda: Int(3), lambda: Int(0), lambda: Null(), lambda: List([Int(7)])]
+    for si, sh in enumerate(shapes):
+        for vi, v in enumerate(values):
+            for twice in (False, True):
+                reset_ids()
+                xs = [Asg("x", v()), Asg("y", Int(5)), Asg("n", Null()), Asg("t", Bool(True)), Asg("x", sh())]
+                if twice:
+                    xs.append(Asg("x", sh()))
+                xs += [Core("print", [Id("x")]), Id("x")]
+                yield Block(xs)
